@@ -460,6 +460,172 @@ def stream_work(arg):
     return total, len(states), viols
 
 
+
+# ---------------------------------------------------------------------------
+# stream, the application acts on the socket from inside its callback
+
+APP_ACTIONS = ("close", "send", "send+close")
+
+
+class AppEndpoint(Endpoint):
+    """an application that uses the socket from INSIDE its callback: while it handles its k-th client frame it closes the
+    websocket, sends a frame, or both (k = 0: it answers every frame - an echo server).  The client does not know about that
+    yet: the frames it had pipelined, and its Close reply (RFC 6455 5.5.1), follow in the same read or in later reads."""
+
+    def __init__(self, k, action):
+        Endpoint.__init__(self)
+        self.k = k
+        self.action = action
+        self.app_errors = []
+
+    def callback(self, handler, opcode, payload):
+        Endpoint.callback(self, handler, opcode, payload)
+        if self.k == 0 or len(self.log) == self.k:
+            try:
+                for act in self.action.split("+"):
+                    if act == "send":
+                        handler.send("re:%d" % len(self.log))
+                    elif act == "close":
+                        handler.close()
+            except Exception as e:
+                self.app_errors.append(e)
+                raise
+
+
+def app_written(want, k, action):
+    """the server frames the client must find on the wire: what the application sent / one Close frame, RFC 6455 encoded"""
+    out = b""
+    closed = False
+    for i, (op, _) in enumerate(want):
+        if k == 0 or i + 1 == k:
+            for act in action.split("+"):
+                if act == "send":
+                    out += ref_encode(1, ("re:%d" % (i + 1)).encode("utf-8"), 0, KEYS[0])
+                elif not closed:
+                    out += ref_encode(8, struct.pack("!H", 200) + b"OK", 0, KEYS[0])
+                    closed = True
+        if op == WebSocketOpCode.Close.value and not closed:
+            out += ref_encode(8, struct.pack("!H", 200) + b"OK", 0, KEYS[0])
+            closed = True
+    return out
+
+
+def feed_app(data, cuts, k, action, via_channel=False):
+    ep = AppEndpoint(k, action)
+    req = FakeRequest()
+    buf = WebSocketTemporaryRingBuffer(req)
+    handler = WebSocketTemporaryHandler(("1.2.3.4", 5), {}, {}, buf, ep)
+    sink = handler
+    if via_channel:
+        factory = HTTPFactory(router=None)
+        chan = factory.buildProtocol(None)
+        chan.websocket_callback = handler
+        sink = chan.dataReceived
+    pos = 0
+    err = None
+    for c in list(cuts) + [len(data)]:
+        chunk = data[pos:c]
+        pos = c
+        try:
+            sink(chunk)
+        except Exception as e:
+            err = e
+            break
+    return ep.log, err, b"".join(req.written)
+
+
+def app_segmentations(N, nframes, k, action, tier):
+    """cut positions for the application part: every position; <= 2 cuts when the application closes the websocket (and for the
+    echo server, and for every behaviour with one or two frames), <= 1 cut for the other behaviours with three frames (one more
+    in the thorough tier); the long streams as in segmentations() with <= 1 cut"""
+    if N > 60:
+        pts = list(range(1, 16)) + [N // 2, N - 2, N - 1] if N > 5000 else list(range(1, 24)) + list(range(24, N - 12, 7)) + list(range(N - 12, N))
+        maxcuts = 1
+    else:
+        pts = list(range(1, N))
+        maxcuts = 2 if (nframes <= 2 or action == "close" or k == 0) else 1
+        if tier == "thorough":
+            maxcuts += 1
+    for c in range(0, maxcuts + 1):
+        for cuts in itertools.combinations(pts, c):
+            yield cuts
+
+
+def app_configs(nframes):
+    for action in APP_ACTIONS:
+        for k in range(1, nframes + 1):
+            yield k, action
+    yield 0, "send"
+
+
+def app_check(seq, data, want, cuts, k, action, via_channel, viols, wantw=None):
+    log, err, written = feed_app(data, cuts, k, action, via_channel)
+    if wantw is None:
+        wantw = app_written(want, k, action)
+    if err is None and written == wantw and len(log) == len(want) and [(o, bytes(p) if not isinstance(p, str) else p) for o, p in log] == want:
+        return len(log)
+    if k == 0:
+        when = "the endpoint answers every frame with send() from inside its callback"
+    else:
+        rest = len(seq) - k
+        when = "the endpoint calls %s from inside its callback%s" % (
+            {"close": "ws.close()", "send": "ws.send()", "send+close": "ws.send() and ws.close()"}[action],
+            " and further client frames follow" if rest else " on the last frame")
+    wit = {"part": "stream-app", "frames": [(op.value, ln) for op, ln in seq], "cuts": list(cuts), "k": k, "action": action, "via_channel": bool(via_channel)}
+    if err is not None:
+        viols.setdefault(("stream-raises", "the handler raises %s when %s" % (type(err).__name__, when)), [0, wit, repr(err)])[0] += 1
+        return len(log)
+    norm = [(o, bytes(p) if not isinstance(p, str) else p) for o, p in log]
+    if norm != want:
+        what = "lost" if len(norm) < len(want) else ("duplicated/extra" if len(norm) > len(want) else "garbled / out of order")
+        where = ""
+        if k and len(norm) < len(want):
+            # where was the first lost frame relative to the read that held frame k?
+            ends, pos = [], 0
+            for fr in seq:
+                pos += len(encode_seq([fr])[0])
+                ends.append(pos)
+            bounds = list(cuts) + [len(data)]
+            read_of = lambda e: next(i for i, b in enumerate(bounds) if e <= b)
+            lost = len(norm)
+            where = " (the lost frame completes in %s)" % ("the same read as the frame being handled" if lost < len(ends) and k <= len(ends) and read_of(ends[lost]) == read_of(ends[k - 1]) else "a later read")
+        viols.setdefault(("stream-delivery", "client frames %s when %s%s" % (what, when, where)),
+                         [0, wit, "delivered %r, sent %r" % ([(o, p[:6]) for o, p in norm][:4], [(o, p[:6]) for o, p in want][:4])])[0] += 1
+        return len(log)
+    if written != wantw:
+        viols.setdefault(("app-frames-written", "server frames on the wire are not the RFC 6455 frames the application sent / one Close frame when %s" % when),
+                         [0, wit, "%d bytes written %s, expected %d bytes %s" % (len(written), written[:24].hex(), len(wantw), wantw[:24].hex())])[0] += 1
+    return len(log)
+
+
+def app_work_init(tier):
+    stream_work_init(tier)
+
+
+def app_work(arg):
+    k_, n = arg
+    viols = {}
+    total = 0
+    states = set()
+    followed = 0
+    for si, seq in enumerate(_SEQS):
+        if si % n != k_:
+            continue
+        data, want = encode_seq(seq)
+        N = len(data)
+        for k, action in app_configs(len(seq)):
+            first = True
+            wantw = app_written(want, k, action)
+            for cuts in app_segmentations(N, len(seq), k, action, _TIER):
+                total += 1
+                if k and k < len(seq):
+                    followed += 1
+                nlog = app_check(seq, data, want, cuts, k, action, first, viols, wantw)
+                first = False
+                states.add((si, k, action, len(cuts), nlog))
+    return total, len(states), viols, followed
+
+
 def _conn():
     ep = Endpoint()
     req = FakeRequest()
@@ -575,6 +741,15 @@ def run(tier, seed):
             if key not in acc:
                 acc[key] = [0, wit, msg]
             acc[key][0] += cnt
+    res = core.pmap("checks.c18", "app_work", [((k + seed) % n, n) for k in range(n)], initargs=(tier,))
+    a_total = sum(r[0] for r in res)
+    a_states = sum(r[1] for r in res)
+    a_followed = sum(r[3] for r in res)
+    for r in res:
+        for key, (cnt, wit, msg) in r[2].items():
+            if key not in acc:
+                acc[key] = [0, wit, msg]
+            acc[key][0] += cnt
     res = core.pmap("checks.c18", "two_conn_work", [(k, 8) for k in range(8)], initargs=(tier,))
     t_total = sum(r[0] for r in res)
     for r in res:
@@ -586,12 +761,16 @@ def run(tier, seed):
         rep.add_violation(core.Violation(oracle, sig, wit, "%s [%d cases]" % (msg[:300], cnt)))
     rep.coverage = {
         "two_connection_interleavings": t_total,
+        "app_segmentations": a_total, "app_states": a_states, "app_action_followed_by_client_frames": a_followed, "app_actions": len(APP_ACTIONS) + 1,
         "states": s_states + c_ok + f_ok, "transitions": s_total + c_total + f_total, "traces_validated_against_impl": s_total,
         "codec_frames": c_total, "codec_exact": c_ok, "factory_frames": f_total, "factory_exact": f_ok, "codec_lengths": len(ls), "stream_segmentations": s_total, "stream_frame_sequences": len(frame_sequences(tier)),
         "evaluations": c_total + s_total + f_total, "distinct_nontrivial": s_states + c_ok + f_ok,
         "rule": "codec: %d payload lengths (all 125/126/127 and 65535/65536 boundaries%s) x 5 opcodes x mask 0/1 x masking keys, writer vs independent RFC 6455 encoder and reader on the writer's output; "
                 "factory: the same lengths through every public constructor (Text with 1/2/3/4-byte characters and a mix, Binary, Ping, Pong, Close x 4 status codes) and through handler.send()/close(); "
-                "stream: %d sequences of 1-3 masked client frames, every segmentation for N<=18 bytes (2^(N-1)), <=%d cuts otherwise; states = distinct (sequence, #cuts, #frames delivered)" % (
+                "stream: %d sequences of 1-3 masked client frames, every segmentation for N<=18 bytes (2^(N-1)), <=%d cuts otherwise; states = distinct (sequence, #cuts, #frames delivered); "
+                "application: the same sequences, the endpoint closes the websocket / sends a frame / both from inside the callback of its k-th frame (every k) or answers every frame, "
+                "every position <= 2 cuts (<= 1 for send / send+close with three frames and for streams > 60 bytes; one more in the thorough tier): every client frame - also those pipelined after the close and the client's Close reply - delivered exactly once in order, "
+                "and the server frames on the wire are what the application sent plus one Close frame" % (
                     len(ls), "" if tier == "quick" else ", every length 0..2000, 65000..66200, every 97th to 70000", len(frame_sequences(tier)), 2 if tier == "quick" else 3),
         "exhaustive": True,
         "samples": core.safe_samples(lambda: _samples(tier)),
@@ -616,6 +795,12 @@ def replay(witness):
             t, _, viols = two_conn_work((k, 8))
             out += [core.Violation(kk[0], kk[1], witness, v[2]) for kk, v in viols.items()]
         return out
+    if witness.get("part") == "stream-app":
+        seq = [(WebSocketOpCode(op), ln) for op, ln in witness["frames"]]
+        data, want = encode_seq(seq)
+        viols = {}
+        app_check(seq, data, want, witness["cuts"], witness["k"], witness["action"], witness.get("via_channel", False), viols)
+        return [core.Violation(k[0], k[1], witness, v[2]) for k, v in viols.items()]
     if witness.get("part") == "stream":
         seq = [(WebSocketOpCode(op), ln) for op, ln in witness["frames"]]
         data, want = encode_seq(seq)
